@@ -187,11 +187,15 @@ def driver(lines, shards=1):
 # --------------------------------------------------------------------------- findings
 
 def load_findings():
-    fn = os.path.join(VERIF, "KNOWN_FINDINGS.json")
-    if not os.path.exists(fn):
-        return []
-    with open(fn) as f:
-        return json.load(f)["findings"]
+    """Known findings, one committed file per property under findings/ (never written at run time)."""
+    out = []
+    d = os.path.join(VERIF, "findings")
+    if os.path.isdir(d):
+        for fn in sorted(os.listdir(d)):
+            if fn.endswith(".json"):
+                with open(os.path.join(d, fn)) as f:
+                    out += json.load(f)["findings"]
+    return out
 
 
 def load_corpus(prop):
